@@ -400,7 +400,10 @@ static void run_swrw(const ivec& samples, const std::vector<double>& weights, co
 static std::vector<double> gen_weights(vh::rng_t& g, const tensor_size_t n)
 {
     std::vector<double> w(static_cast<size_t>(n), 0.0);
-    const auto          kind = g.range(0, 5);
+    const auto          kind = g.range(0, 6);
+    // kind 6: weights are unnormalised by contract (gboost passes raw gradient norms / losses): a vector whose positive
+    // entries are all of one tiny magnitude 2^-60 .. 2^-1000 (sum far below machine epsilon, down to denormals) is legal
+    const auto          tiny = std::ldexp(1.0, -static_cast<int>(g.range(60, 1000)));
     for (auto& x : w)
     {
         switch (kind)
@@ -410,13 +413,14 @@ static std::vector<double> gen_weights(vh::rng_t& g, const tensor_size_t n)
         case 2: x = g.unit() < 0.1 ? 0.0 : std::ldexp(1.0, static_cast<int>(g.range(-40, 20))); break; // wide dynamic range
         case 3: x = 0.0; break;                                                      // a single positive weight (set below)
         case 4: x = g.unit() < 0.3 ? 0.0 : 1.0; break;                               // equal weights
-        default: x = g.unit() < 0.5 ? 0.0 : 1e-9 * g.unit(); break;                  // tiny weights
+        case 5: x = g.unit() < 0.5 ? 0.0 : 1e-9 * g.unit(); break;                   // small weights
+        default: x = g.unit() < 0.5 ? 0.0 : tiny * (0.5 + g.unit()); break;          // tiny weights (sum << epsilon)
         }
     }
     if (kind == 3 || std::all_of(w.begin(), w.end(), [](double x) { return x <= 0.0; }))
-        w[static_cast<size_t>(g.range(0, n - 1))] = 0.5 + g.unit();
+        w[static_cast<size_t>(g.range(0, n - 1))] = (kind == 6 ? tiny : 1.0) * (0.5 + g.unit());
     // zeros at both ends are the interesting boundary of the cumulative table
-    if (n >= 3 && g.unit() < 0.5) { w.front() = 0.0; w.back() = 0.0; if (std::all_of(w.begin(), w.end(), [](double x) { return x <= 0.0; })) w[1] = 1.0; }
+    if (n >= 3 && g.unit() < 0.5) { w.front() = 0.0; w.back() = 0.0; if (std::all_of(w.begin(), w.end(), [](double x) { return x <= 0.0; })) w[1] = kind == 6 ? tiny : 1.0; }
     return w;
 }
 
